@@ -10,7 +10,7 @@ namespace Ari
 theorem c09_server_rejected (cfg : SrvCfg) (env : InitEnv) (st : RState) :
     act cfg env st .ownBad = (st, onException cfg) ∧
     ∀ a ∈ onException cfg, a.isInitialize = false ∧ a.isListener = false ∧ a.isReply = false ∧ a.isWork = false := by
-  sorry
+  exact ⟨rfl, onException_no_work cfg⟩
 
 /-- **C09 (reported exactly once; Data default = one failure notification).** The exception handler is
     notified exactly once iff one is installed; the default handling (for a Data server: one FAL notification;
@@ -19,7 +19,10 @@ theorem c09_reported_once (cfg : SrvCfg) :
     onException cfg =
       (match cfg.excHandler with | none => [] | some _ => [RAct.handlerExc]) ++
       (if cfg.kind = .dataK ∧ cfg.excHandler ≠ some false then [RAct.fal] else []) := by
-  sorry
+  unfold onException
+  cases cfg.kind <;> cases cfg.excHandler with
+  | none => simp
+  | some r => cases r <;> simp
 
 /-- which lines are malformed requests in this sense: a request of one of the kind's own methods whose
     arguments the decoder rejects (C09 decoder part). -/
@@ -28,7 +31,15 @@ theorem c09_malformed_is_ownBad (cfg : SrvCfg) (ce : Bool) (line id m : String) 
     (hown : match cfg.kind with | .metaK => metaMethods.contains m = true | .dataK => m = "SUB" ∨ m = "USB")
     (hd : decodeRequest m toks = some (.error e)) :
     classify cfg ce line = .ownBad := by
-  sorry
+  unfold classify
+  simp only [hp, hnc, false_and, if_false, hni]
+  cases hk : cfg.kind with
+  | metaK =>
+    rw [hk] at hown
+    simp only [hown, if_true, hd]
+  | dataK =>
+    rw [hk] at hown
+    simp only [hown, if_true, hd]
 
 /-- **C09 (service continues).** Requests received afterwards are processed exactly as if the bad line had
     not been there. -/
@@ -36,6 +47,6 @@ theorem c09_continues (cfg : SrvCfg) (env : InitEnv) (st : RState) (bad : String
     (hb : classify cfg st.closeExpected bad = .ownBad) :
     dispatchAll cfg env st (bad :: rest) =
       ((dispatchAll cfg env st rest).1, onException cfg :: (dispatchAll cfg env st rest).2) := by
-  sorry
+  simp only [dispatchAll, dispatch, hb, act]
 
 end Ari
